@@ -20,17 +20,25 @@ class CombineCallsBaseCodemod(SimpleCodemod, NameResolutionMixin):
             return updated_node
 
         for call_matcher in map(self.make_call_matcher, self.combinable_funcs):
+            # The result keeps the parentheses of the expression it replaces (it may span lines inside them)
+            parens = {"lpar": updated_node.lpar, "rpar": updated_node.rpar}
             if self.matches_call_or_call(updated_node, call_matcher):
                 self.report_change(original_node)
-                return self.combine_calls(updated_node.left, updated_node.right)
+                return self.combine_calls(
+                    updated_node.left, updated_node.right
+                ).with_changes(**parens)
 
             if self.matches_call_or_boolop(updated_node, call_matcher):
                 self.report_change(original_node)
-                return self.combine_call_or_boolop_fold_right(updated_node)
+                return self.combine_call_or_boolop_fold_right(
+                    updated_node
+                ).with_changes(**parens)
 
             if self.matches_boolop_or_call(updated_node, call_matcher):
                 self.report_change(original_node)
-                return self.combine_boolop_or_call_fold_left(updated_node)
+                return self.combine_boolop_or_call_fold_left(
+                    updated_node
+                ).with_changes(**parens)
 
         return updated_node
 
